@@ -496,3 +496,64 @@ package keeper
 //@   ensures @authority_only err == nil ==> req.Authority == k.Keeper.authority
 //@   ensures @rejected_changes_nothing err != nil ==> ent_store == old(ent_store)
 //@   ensures @valid_and_stored err == nil ==> ent_store == entParamsPut(old(ent_store), req.Params) && validDenom(req.Params.Denom) && req.Params.MinAccepts >= 1 && req.Params.DecisionTimeLimit >= 1 && len(splitOn(req.Params.EntSigners, ",")) >= req.Params.MinAccepts
+
+// ================================================================ block begin (L2): tally, then completion one block later
+
+// Tally of every order raised at entry, by the statement's rule (specification function `verdict`): stale without
+// the minimum accepts -> rejected; rejects above (signers - minimum) -> rejected; minimum accepts -> accepted and
+// queued for completion; otherwise untouched.  Orders that were not raised at entry, and every other key, are untouched.
+//@ func Keeper.TallyPurchaseOrderDecisions(ctx)
+//@   props C03 C14 C16
+//@   requires ENT_ALL(ent_store)
+//@   requires 0 <= unixSecs(blockTime(ctx)) && unixSecs(blockTime(ctx)) < 2^63
+//@   requires entParams(ent_store).MinAccepts >= 1 && len(splitOn(entParams(ent_store).EntSigners, ",")) >= entParams(ent_store).MinAccepts
+//@   requires forall x uint64 :: {ent_store[kRaised(x)]} raisedHas(ent_store, x) ==> poGet(ent_store, x).RaiseTime <= unixSecs(blockTime(ctx)) && len(poGet(ent_store, x).Decisions) < 2^62
+//@   let s0 := old(ent_store)
+//@   let now := unixSecs(blockTime(ctx))
+//@   let lim := entParams(old(ent_store)).DecisionTimeLimit
+//@   let ma := entParams(old(ent_store)).MinAccepts
+//@   let ns := len(splitOn(entParams(old(ent_store)).EntSigners, ","))
+//@   modifies ent_store
+//@   nopanic
+//@   ensures @tally_rule forall x uint64 :: {ent_store[kPO(x)]} {ent_store[kRaised(x)]} {ent_store[kAccepted(x)]} raisedHas(s0, x) ==> tallied(s0, ent_store, x, now, lim, ma, ns)
+//@   ensures @others_untouched forall x int :: {ent_store[kPO(x)]} {ent_store[kRaised(x)]} {ent_store[kAccepted(x)]} !raisedHas(s0, x) ==> ent_store[kPO(x)] == s0[kPO(x)] && ent_store[kRaised(x)] == s0[kRaised(x)] && ent_store[kAccepted(x)] == s0[kAccepted(x)]
+//@   ensures @frame forall k `enterprise.Key` :: {ent_store[k]} !isPOKey(k) && !isRaisedKey(k) && !isAcceptedKey(k) ==> ent_store[k] == s0[k]
+//@   ensures @inv_queues derived ENT_Q(ent_store)
+//@   ensures @inv_fresh ENT_FRESH(ent_store)
+//@   ensures @inv_completable derived ENT_PO_WF(ent_store) && entParamsSet(ent_store) && validDenom(entDenom(ent_store))
+//@   loop 0: invariant 0 - 1 <= rangeindex && rangeindex < len(raisedPurchaseOrderIds)
+//@   loop 0: invariant forall j int :: {raisedPurchaseOrderIds[j]} 0 <= j && j <= rangeindex ==> tallied(s0, ent_store, raisedPurchaseOrderIds[j], now, lim, ma, ns)
+//@   loop 0: invariant forall j int :: {raisedPurchaseOrderIds[j]} rangeindex < j && j < len(raisedPurchaseOrderIds) ==> ent_store[kPO(raisedPurchaseOrderIds[j])] == s0[kPO(raisedPurchaseOrderIds[j])] && ent_store[kRaised(raisedPurchaseOrderIds[j])] == s0[kRaised(raisedPurchaseOrderIds[j])] && ent_store[kAccepted(raisedPurchaseOrderIds[j])] == s0[kAccepted(raisedPurchaseOrderIds[j])]
+//@   loop 0: invariant forall x int :: {ent_store[kPO(x)]} {ent_store[kRaised(x)]} {ent_store[kAccepted(x)]} !raisedHas(s0, x) ==> ent_store[kPO(x)] == s0[kPO(x)] && ent_store[kRaised(x)] == s0[kRaised(x)] && ent_store[kAccepted(x)] == s0[kAccepted(x)]
+//@   loop 0: invariant forall k `enterprise.Key` :: {ent_store[k]} !isPOKey(k) && !isRaisedKey(k) && !isAcceptedKey(k) ==> ent_store[k] == s0[k]
+//@   loop 1: invariant 0 - 1 <= rangeindex && rangeindex < len(po.Decisions) && po == poGet(s0, poId) && raisedHas(s0, poId)
+//@   loop 1: invariant numAccepts == decCount(arr(po.Decisions), rangeindex + 1, 2) && numRejects == decCount(arr(po.Decisions), rangeindex + 1, 3)
+
+// Completion of every order accepted at entry: marked Completed, its amount minted and locked for its purchaser
+// (contract of MintCoinsAndLock), removed from the queue.  Supply of other denominations, and everything when no
+// order is queued, is untouched.  State assumptions: total locked below 2^200, the module may mint, purchasers are
+// not blocked (module) accounts - those have no keys and cannot have signed the order.
+//@ func Keeper.ProcessAcceptedPurchaseOrders(ctx)
+//@   props C02 C03 C04 C14
+//@   requires ENT_ALL(ent_store) && ENT_BOOKS_WF(ent_store) && BANK_OK(bank_bal) && ENT_LEDGER(ent_store, bank_bal, bytesval(modAddr("enterprise")))
+//@   requires bankCanMint("enterprise") && totalLockedAmt(ent_store) < P200
+//@   requires forall x uint64 :: {ent_store[kAccepted(x)]} acceptedHas(ent_store, x) ==> !bankBlocked(bytesval(addrOf(poGet(ent_store, x).Purchaser))) && bytesval(addrOf(poGet(ent_store, x).Purchaser)) != bytesval(modAddr("enterprise"))
+//@   let s0 := old(ent_store)
+//@   let dn := entDenom(old(ent_store))
+//@   let esc := bytesval(modAddr("enterprise"))
+//@   modifies ent_store, bank_bal, bank_supply
+//@   nopanic
+//@   ensures @completed forall x uint64 :: {ent_store[kPO(x)]} {ent_store[kAccepted(x)]} acceptedHas(s0, x) ==> completedFrom(s0, ent_store, x)
+//@   ensures @others_untouched forall x int :: {ent_store[kPO(x)]} {ent_store[kAccepted(x)]} !acceptedHas(s0, x) ==> ent_store[kPO(x)] == s0[kPO(x)] && ent_store[kAccepted(x)] == s0[kAccepted(x)]
+//@   ensures @frame forall k `enterprise.Key` :: {ent_store[k]} !isPOKey(k) && !isAcceptedKey(k) && !isLockedKey(k) && k != kTotalLocked ==> ent_store[k] == s0[k]
+//@   ensures @nothing_queued_nothing_minted (forall x uint64 :: {s0[kAccepted(x)]} !acceptedHas(s0, x)) ==> ent_store == s0 && bank_supply == old(bank_supply) && bank_bal == old(bank_bal)
+//@   ensures @other_denoms_untouched forall d string :: {bank_supply[d]} d != dn ==> bank_supply[d] == old(bank_supply)[d]
+//@   ensures @supply_never_shrinks bank_supply[dn] >= old(bank_supply)[dn]
+//@   ensures @inv ENT_ALL(ent_store) && ENT_BOOKS_WF(ent_store) && BANK_OK(bank_bal) && ENT_LEDGER(ent_store, bank_bal, esc)
+//@   loop 0: invariant 0 - 1 <= rangeindex && rangeindex < len(acceptedPurchaseOrderIds)
+//@   loop 0: invariant forall x uint64 :: {ent_store[kPO(x)]} {ent_store[kAccepted(x)]} acceptedHas(s0, x) && rangeindex >= 0 && x <= acceptedPurchaseOrderIds[rangeindex] ==> completedFrom(s0, ent_store, x)
+//@   loop 0: invariant forall x uint64 :: {ent_store[kPO(x)]} {ent_store[kAccepted(x)]} !(acceptedHas(s0, x) && rangeindex >= 0 && x <= acceptedPurchaseOrderIds[rangeindex]) ==> ent_store[kPO(x)] == s0[kPO(x)] && ent_store[kAccepted(x)] == s0[kAccepted(x)]
+//@   loop 0: invariant forall k `enterprise.Key` :: {ent_store[k]} !isPOKey(k) && !isAcceptedKey(k) && !isLockedKey(k) && k != kTotalLocked ==> ent_store[k] == s0[k]
+//@   loop 0: invariant ENT_BOOKS_WF(ent_store) && BANK_OK(bank_bal) && ENT_LEDGER(ent_store, bank_bal, esc) && totalLockedAmt(ent_store) < P200 + (rangeindex + 1) * P128
+//@   loop 0: invariant forall d string :: {bank_supply[d]} d != dn ==> bank_supply[d] == old(bank_supply)[d]
+//@   loop 0: invariant bank_supply[dn] >= old(bank_supply)[dn] && (rangeindex < 0 ==> ent_store == s0 && bank_supply == old(bank_supply) && bank_bal == old(bank_bal))
